@@ -141,6 +141,30 @@ let handle (line : string) : string =
              let bad = List.filter (fun r' -> int_of_n r'.r_name <> 2 && not (ochk_rule !grammar g' fuel r')) g' in
              "INVALID " ^ String.concat "," (List.map (fun r' -> string_of_int (int_of_n r'.r_name)) bad)
            end)
+  | "U" ->
+      (* U <pass> (<ids of the BuiltInRule entries>) <rules of the table the real pass produced> :
+         the model of the pass itself (coq/OptPass.v) applied to the current grammar must give exactly that table *)
+      (match parse_sexp rest with
+       | A pass :: L bis :: l ->
+           let g' = List.map rule_of l in
+           let bl = List.map (fun x -> n_of_int (atom_int x)) bis in
+           let bi n = List.mem n bl in
+           let model =
+             match pass with
+             | "unroll" -> Some (pass_unroll bi !grammar)
+             | "inline-builtin" -> pass_inline_builtin bi (nat_of_int 200) !grammar
+             | _ -> failwith "U: unknown pass" in
+           (match model with
+            | None -> "MODEL-FUEL"
+            | Some gm ->
+                let user = List.filter (fun r' -> int_of_n r'.r_name <> 2) g' in
+                let find n = List.find_opt (fun r -> r.r_name = n) gm in
+                let bad = List.filter (fun r' -> match find r'.r_name with Some r -> r <> r' | None -> true) user in
+                let missing = List.filter (fun r -> not (List.exists (fun r' -> r'.r_name = r.r_name) user)) gm in
+                let side = (if names_nodup !grammar then "" else " dup-names") in
+                if bad = [] && missing = [] then "SAME" ^ side
+                else "DIFF " ^ String.concat "," (List.map (fun r' -> string_of_int (int_of_n r'.r_name)) (bad @ missing)) ^ side)
+       | _ -> failwith "U: arguments")
   | "W" -> if wf_auto !grammar then "WF" else "NOTWF"
   | "C" ->
       (* C rule lo hi fuel : code points c in [lo, hi] for which parse rule [c] 0 succeeds, as ranges *)
